@@ -254,6 +254,8 @@ M_COLUMN.harnesses.append(H("u16_index_walk_visits_every_live_entry", "U16", kin
                             shape="iter_index_internal over one arbitrary 64-entry page (last chunk of a 16-bit index)",
                             bound="one chunk, four arbitrary slots (0, 1, 37, 63), the rest empty; entries in one size tier; IndexTable::entries and ValueTable::get_with_meta by contract"))
 M_COLUMN.harnesses.append(H("u17_iter_values_visits_every_table", "U17", kind="bounded", shape="HashColumn::iter_values (ValueTable::iter_while by contract)", bound="a column with 3 value tables (2 fixed tiers + blob table) instead of 256"))
+# (u20_reindex_batch_*: written, but the queued IndexTable lives on the heap (VecDeque), which hides its size from the symbolic
+# executor; the batch loop is then unrolled to the bound and the harness exceeds the budget -- not registered)
 M_COLUMN.harnesses.append(H("u11_child_count_representable", "U11"))
 for (n, d) in U11_WELL:
     M_COLUMN.harnesses.append(H("u11_well_c%d_d%d" % (n, d), "U11", kind="bounded", tiers=("thorough",) if n == 255 else ("quick", "thorough"),
@@ -470,6 +472,7 @@ UNIT_META = {
     "U17": {"functions": ["column::HashColumn::iter_values"], "assumes": ["ValueTable::iter_while replaced by its contract (calls the callback for the table's live entries)"]},
     "U19": {"functions": ["column::Column::{refresh_metadata,complete_plan}", "column::HashColumn::{refresh_metadata,complete_plan}", "btree::BTreeTable::{refresh_metadata,complete_plan}"],
             "assumes": ["ValueTable::{refresh_metadata,complete_plan} replaced by counters (their own contracts: U14.complete_plan.*)"]},
+    "U20": {"functions": ["column::HashColumn::reindex"], "assumes": ["IndexTable::entries returns the chunk's entries (U1)"]},
     "U11": {"functions": ["column::{unpack_node_data,unpack_node_children,packed_node_size,packed_child_count}"], "assumes": []},
     "U14": {"functions": ["table::ValueTable::{clear_slot,next_free,read_next_free,complete_plan,write_remove_plan,clear_chain}"], "assumes": ["LogWriter ghost view"]},
     "index_search": {"functions": ["index::Entry::*", "index::Address::*", "index::IndexTable::{chunk_index,find_entry_base}"], "assumes": ["read_entry contract (external_body; proved by Kani U1.read_entry_is_le_word)"]},
